@@ -3,7 +3,7 @@
 Fed with the leaf PDUs of that connection as *seen on the wire*, decoded by vf.ref.llcp_ref (never nfcpy's state):
     m = WindowModel(); problems = m.feed("A", d)      # "A"/"B" = the end that transmitted d
 feed() returns the clauses d breaks as (clause, detail) pairs:
-    i-before-cc            I PDU on the wire before the CC that completes the connection set-up
+    pdu-before-cc          I/RR/RNR PDU on the wire before the CC that completes the connection set-up
     ns-not-consecutive     N(S) of an I PDU is not the sender's previous N(S) + 1 mod 16 (first one 0)
     outstanding>rw         an I PDU is transmitted while RW(receiver) I PDUs of this sender are unacknowledged
     i-exceeds-miu          information field longer than the MIU the receiver announced
@@ -40,7 +40,7 @@ class WindowModel:
             bad.append(("frmr", "flags=%x ptype=%d" % (d["rej_flags"], d["rej_ptype"])))
             self.closed = True
         elif not self.established:
-            bad.append(("i-before-cc", "%s from %s before the CC" % (t, x)))
+            bad.append(("pdu-before-cc", "%s from %s before the CC" % (t, x)))
         else:
             if t == "I":
                 out = self.outstanding(x)
